@@ -169,6 +169,20 @@ impl World {
             }
             Op::Collect => {
                 self.heap.collect();
+                // "all others are reset": an object the model says is unreachable must read as default through the
+                // (from now on stale, never used again) handle - reading is memory-safe, the slot still exists
+                let r = self.reachable();
+                for o in 0..self.objs.len() {
+                    if self.objs[o].alive && !r[o] {
+                        if let Some(h) = &self.objs[o].handle {
+                            let b = h.borrow();
+                            if b.v != 0 || !b.links.is_empty() {
+                                return Err(("gc_histories/Heap::collect/ensures#unreachable_object_is_reset".to_string(),
+                                            format!("unreachable object #{} still has v={} links={} after collect()", o, b.v, b.links.len())));
+                            }
+                        }
+                    }
+                }
                 self.model_collect();
                 let live = self.alive().len();
                 let st = self.heap.stats();
@@ -318,6 +332,54 @@ fn random_history(rng: &mut Rng, len: usize, threshold: usize, max_guards: usize
     w.finish(rng.below(2) == 0);
 }
 
+// directed: the guard-storage pool (16 entries): many guards with root lists of different sizes are dropped in a
+// row, then new guards are created - a new guard must start with no roots and nothing may stay alive
+fn guard_pool_scenarios(fails: &mut Vec<(String, String)>, cases: &mut usize) {
+    for &(ng, order_desc) in &[(15usize, false), (16, false), (17, true), (17, false), (20, true), (40, false)] {
+        *cases += 1;
+        let heap: Heap<Obj> = Heap::new();
+        heap.set_gc_threshold(0);
+        let mut guards = Vec::new();
+        let mut total = 0usize;
+        for g in 0..ng {
+            let guard = heap.create_guard();
+            // root lists of increasing (or decreasing) length, so that storage buffers differ in capacity
+            let n = if order_desc { ng - g } else { g + 1 };
+            for _ in 0..n {
+                let h = guard.alloc();
+                h.borrow_mut().v = 5;
+                core::mem::forget(h);
+                total += 1;
+            }
+            guards.push(guard);
+        }
+        heap.collect();
+        if heap.stats().live_objects != total {
+            fails.push(("gc_histories/Heap::collect/ensures#exactly_the_reachable_objects_are_counted_live".to_string(),
+                        format!("{} guards rooting {} objects, stats say live={}", ng, total, heap.stats().live_objects)));
+        }
+        // drop all guards in a row (no guard created in between), then create fresh ones
+        for guard in guards.drain(..) {
+            drop(guard);
+        }
+        let mut fresh = Vec::new();
+        for _ in 0..(ng + 2) {
+            let guard = heap.create_guard();
+            if guard.len() != 0 {
+                fails.push(("gc_histories/Heap::create_guard/ensures#new_guard_has_no_roots".to_string(),
+                            format!("after dropping {} guards in a row a fresh guard starts with {} roots", ng, guard.len())));
+                break;
+            }
+            fresh.push(guard);
+        }
+        heap.collect();
+        if heap.stats().live_objects != 0 {
+            fails.push(("gc_histories/Heap::collect/ensures#exactly_the_reachable_objects_are_counted_live".to_string(),
+                        format!("{} guards dropped in a row, {} fresh guards with no roots: stats say live={} (want 0)", ng, fresh.len(), heap.stats().live_objects)));
+        }
+    }
+}
+
 // KNOWN FINDING on the unchanged tree (DESIGN §4.4): two stale handles to a reclaimed slot, dropped after the slot
 // was reused, take the new tenant's handle count to zero although it is still rooted.
 fn stale_handle_scenario(fails: &mut Vec<(String, String)>) {
@@ -421,6 +483,7 @@ fn verif_oracle_gc_histories() {
         cases += 1;
     }
     chunk_boundary_scenarios(&mut fails, &mut cases);
+    guard_pool_scenarios(&mut fails, &mut cases);
     stale_handle_scenario(&mut fails);
     cases += 1;
     let mut seen = std::collections::BTreeSet::new();
